@@ -173,6 +173,10 @@ class BeltStore(Store):
 
         """
         # Check if there's enough space to reserve
+        # one item enters the belt at a time: while a granted space reservation is still unused the next
+        # request waits, otherwise two holders could both enter in the same instant, on top of each other
+        if self.reservations_put:
+            return
         if self.items:
             if len(self.reservations_put) + len(self.items) +len(self.ready_items) < self.capacity:
               
